@@ -34,6 +34,11 @@ CHECKS = {
             "the only degree-0 term is confined to rows no weighted term mentions, weights are stored and forwarded as floats without truncation or defaulting.",
             "Trusted: clang 14 front end; degree seeds (netWeight()/penaltyStrength/weight parameters). Not decided: least-squares optimality (solver numerics).",
             "DESIGN.md 2/C17"),
+    "C09": ("exhaustive table extraction (symbolic constant propagation over the orientation dispatch), structural loop-coverage / must-pass-through analysis, who-may-write",
+            "The 'for every cell orientation' clause is decided exhaustively: the 8x5 orientation table computed from the AST equals the DEF transform table with symbolic sizes and offsets. "
+            "hpwl covers every pin on its own axis; the incremental model recomputes every net of a moved cell and keeps bounds and value in step.",
+            "Trusted: clang 14 front end; rules/orientation_spec.json (DEF semantics as documented in coloquinte.hpp). Not decided: equality over whole update histories; int overflow (C07).",
+            "DESIGN.md 2/C09"),
 }
 
 NOT_APPLICABLE = {
